@@ -258,8 +258,12 @@ class Run:
         exe = build_harness(race)
         self.n_tlc += 1
         res = os.path.join(self.scratch, "vh-%d.json" % self.n_tlc)
-        p = subprocess.Popen([exe] + args + ["--result", res], stdin=subprocess.PIPE, stdout=subprocess.PIPE,
+        # what the harness (or the library under test, which may write to the process's stderr) prints goes to a file: a pipe nobody
+        # reads while TLC is still feeding cases would fill up and stop the harness
+        logp = res[:-5] + ".out"
+        p = subprocess.Popen([exe] + args + ["--result", res], stdin=subprocess.PIPE, stdout=open(logp, "w"),
                              stderr=subprocess.STDOUT, text=True, bufsize=1 << 20)
+        p._log = logp
         p._result = res
         p._args = args
         p._t0 = time.time()
@@ -272,11 +276,14 @@ class Run:
         except BrokenPipeError:
             pass
         try:
-            out = p.stdout.read()
             p.wait(timeout=timeout)
         except subprocess.TimeoutExpired:
             p.kill()
             raise Inconclusive("harness timed out in %s" % stage)
+        try:
+            out = open(p._log, errors="replace").read()[-20000:]
+        except OSError:
+            out = ""
         if p.returncode != 0 or not os.path.exists(p._result):
             raise Inconclusive("harness failed in %s (exit %s): %s" % (stage, p.returncode, (out or "")[-3000:]))
         s = json.load(open(p._result))
